@@ -114,6 +114,10 @@ def main(argv=None):
 
     prop = a.prop
     names = [n for n, un in UNITS.items() if prop in un.props and (tier == "thorough" or un.tier == "quick")]
+    if tier == "thorough":
+        # a thorough-only unit with a larger bound supersedes its quick counterpart
+        sup = {n.split("[bounded")[0] for n in names if UNITS[n].tier == "thorough" and "[bounded" in n}
+        names = [n for n in names if not (UNITS[n].tier == "quick" and "[bounded" in n and n.split("[bounded")[0] in sup)]
     if a.units:
         names = [n for n in names if a.units in n]
     if not names:
